@@ -33,6 +33,10 @@ impl<Fd: AsFd + Sized> HotfixRustixFd for Fd {
 //@prove syscalls.fstatat
 //@prove syscalls.statx
 //@prove syscalls.openat2 u05
+pub mod ledger {
+    use super::*;
+//@prove syscalls.openat2__ledger
+}
 //@prove syscalls.fsopen
 //@prove syscalls.fsconfig_set_string
 //@prove syscalls.fsconfig_create
